@@ -45,7 +45,7 @@ func init() {
 				Old: "\tif trig, ok := r.triggers[triggerID]; !ok || trig.updater != updater {\n\t\tr.mu.Unlock()\n\t\treturn\n\t}\n", New: ""},
 			{Name: "start goroutine marks whatever trigger has the id initialized", File: resolveGo, Rule: "C13-R8", Key: "Resolver.markTriggerInitialized/mark-initialized-own-trigger-only",
 				Old: "\tif !ok || trig != started {\n\t\tr.mu.Unlock()\n\t\treturn\n\t}\n\ttrig.initialized.Store(true)", New: "\tif !ok {\n\t\tr.mu.Unlock()\n\t\treturn\n\t}\n\ttrig.initialized.Store(true)"},
-			{Name: "trigger cancel and closeSubs moved inside Resolver.mu in UnsubscribeSubscription", File: resolveGo, Rule: "C13-R2", Key: "UnsubscribeSubscription",
+			{Name: "trigger cancel and closeSubs moved inside Resolver.mu in UnsubscribeSubscription", File: resolveGo, Rule: "C13-R2", Key: "Resolver.unsubscribe",
 				Old: "\tr.mu.Unlock()\n\tcloseSubs(res.toClose)\n\tif res.triggerCancel != nil {\n\t\tres.triggerCancel()\n\t}\n\treturn nil",
 				New: "\tcloseSubs(res.toClose)\n\tif res.triggerCancel != nil {\n\t\tres.triggerCancel()\n\t}\n\tr.mu.Unlock()\n\treturn nil"},
 			{Name: "getTrigger reads the registry without Resolver.mu", File: resolveGo, Rule: "C13-R1", Key: "getTrigger",
